@@ -1,0 +1,25 @@
+//! Verification hooks. Only compiled with `--cfg dds_verif`; never part of a
+//! normal build.
+//!
+//! The fragment hook is invoked by the parallel encoder at the start of each
+//! fragment job (`"start"`) and immediately before the job submits its
+//! progress (`"submit"`), with the index of the fragment. A test harness can
+//! use it to impose an order in which fragments finish.
+
+use std::sync::RwLock;
+
+/// A callback receiving the event name and the fragment index.
+pub type FragmentHook = Box<dyn Fn(&'static str, u32) + Send + Sync>;
+
+static FRAGMENT_HOOK: RwLock<Option<FragmentHook>> = RwLock::new(None);
+
+/// Installs (or with `None` removes) the fragment hook.
+pub fn set_fragment_hook(hook: Option<FragmentHook>) {
+    *FRAGMENT_HOOK.write().unwrap() = hook;
+}
+
+pub(crate) fn fragment_event(event: &'static str, index: u32) {
+    if let Some(hook) = FRAGMENT_HOOK.read().unwrap().as_ref() {
+        hook(event, index);
+    }
+}
